@@ -483,7 +483,8 @@ func runC18Stall(c *kernel.Ctx, b *world.Broker, kP, kNoP string) {
 	// the watcher reads again, until nothing more arrives
 	got := map[string]int{}
 	hgot := map[string]int{}
-	for round := 0; round < 400; round++ {
+	for round := 0; round < 8000; round++ {
+		arrived := slow.Conn.Pending()
 		pk, err := slow.Recv()
 		if err != nil {
 			c.Failf("notify-missing", "undecodable", "%v", err)
@@ -501,7 +502,7 @@ func runC18Stall(c *kernel.Ctx, b *world.Broker, kP, kNoP string) {
 		for _, e := range hevs {
 			hgot[e]++
 		}
-		if len(pk) == 0 && len(hp) == 0 && round > 2 {
+		if arrived == 0 && len(pk) == 0 && len(hp) == 0 && round > 2 { // a packet may arrive in many pieces of the tiny buffer's size
 			break
 		}
 	}
